@@ -1,7 +1,7 @@
 """Driver for the catalogue harness (engine/cat): properties C01-C06, C08, C10."""
 import os, sys, json, time, subprocess
 from concurrent.futures import ThreadPoolExecutor
-from . import vbuild, common
+from . import vbuild, common, macroclient
 
 ROOT = common.ROOT
 CAT = os.path.join(ROOT, "build", "cat", "cat")
@@ -44,7 +44,7 @@ def build_harness():
     common.cc(FMTGRID, FMTGRID_SRC, ["-O1", "-g", "-w", "-Wl,--no-as-needed", "-ldl", "-lm"])
     common.cc(FMTGUARD, FMTGUARD_SRC, ["-O1", "-g", "-w", "-ldl"])
     common.cc(LONGMOVE, LONGMOVE_SRC, ["-O1", "-g", "-w", "-ldl"])
-    common.cc(CAT, SRC[:3], ["-O1", "-g", "-Wall", "-Wno-unused-function", "-pthread"], deps=SRC[3:])
+    common.cc(CAT, SRC[:3], ["-O1", "-g", "-Wall", "-Wno-unused-function", "-pthread", "-rdynamic"], deps=SRC[3:] + [os.path.join(ROOT, "engine", "denylist.h")])
     # -ldl must follow the sources for old linkers; gcc >= 2.34 has dlopen in libc anyway
     return CAT
 
@@ -72,7 +72,7 @@ def run(pid, tier, deadline_s):
     if pid in SPECIAL_PROPS:
         for v in VARIANTS[pid]:
             for loc in ("C", "C.UTF-8"):
-                for grp in (("os",) if pid == "C06" else ("printf", "wprintf", "unicode", "conv", "os")):
+                for grp in (("os",) if pid == "C06" else ("printf", "wprintf", "unicode", "normparts", "conv", "os")):
                     tasks.append(("special:" + grp, v, loc, 0, 1))
     if pid == "C06":
         for sh in range(8): tasks.append(("longmove:" + ("200" if tier == "quick" else "400"), "prod", "C", sh, 8))
@@ -80,6 +80,11 @@ def run(pid, tier, deadline_s):
         for fam in ("narrow", "wide"):
             for alpha, L in ((("%ndslh5.x", 4), ("%n[]^s*", 5)) if tier == "quick" else (("%ndslh5.x", 5), ("%n[]^s*d", 6))):
                 for sh in range(4): tasks.append((f"fmtguard:{fam}:{L}:{alpha}", "prod", "C", sh, 4))
+    if pid == "C05":      # the public macros as an application sees them, for each compiler x optimisation x _FORTIFY_SOURCE level
+        for cc in ("gcc", "clang"):
+            for opt in (("O2",) if tier == "quick" else ("O0", "O1", "O2", "O3", "Os")):
+                for fort in ("0", "2", "3"):
+                    tasks.append((f"macroclient:{cc}:{opt}:{fort}", "prod", "C", 0, 1))
     if pid == "C01":
         for grp in ("int", "float", "str", "multi"):
             for sh in range(4): tasks.append(("fmtgrid:" + grp, "prod", "C.UTF-8", sh, 4))
@@ -92,7 +97,9 @@ def run(pid, tier, deadline_s):
             return t, None
         env = dict(os.environ, CAT_LIB=libs[v])
         try:
-            if name.startswith("longmove:"):
+            if name.startswith("macroclient:"):
+                r = macroclient.task(*name.split(":")[1:])
+            elif name.startswith("longmove:"):
                 r = subprocess.run([LONGMOVE, "moves", name[9:], str(sh), str(nsh)], capture_output=True, text=True, errors="replace", env=dict(env, C07_PROP=pid), timeout=left)
             elif name.startswith("fmtguard:"):
                 _, fam, L, alpha = name.split(":", 3)
@@ -127,7 +134,9 @@ def run(pid, tier, deadline_s):
                 continue
             j = json.loads(ln)
             if j["t"] == "viol":
-                if name.startswith("longmove:"):
+                if name.startswith("macroclient:"):
+                    sig = j["sig"]
+                elif name.startswith("longmove:"):
                     sig = j["sig"]; j["case"] = "longmove " + j["case"]
                 elif name.startswith("fmtguard:"):
                     sig = j["sig"]; j["case"] = "fmtguard " + j["case"]
@@ -139,6 +148,8 @@ def run(pid, tier, deadline_s):
                     sig = j["sig"] + ("" if v == "prod" else "|" + v)
                 e = viol.setdefault(sig, [0, j["case"], v, loc])
                 e[0] += j["n"]
+            elif j["t"] == "stat" and name.startswith("macroclient:"):
+                evals += j["evaluations"]; nontriv += j["nontrivial"]; pf = per_fn.setdefault("public macros in a client application (build matrix)", [0, 0]); pf[0] += j["evaluations"]; pf[1] += j["nontrivial"]
             elif j["t"] == "stat" and name.startswith("longmove:"):
                 evals += j["layouts"]; nontriv += j["layouts"]; pf = per_fn.setdefault("memmove family, long overlapping moves", [0, 0]); pf[0] += j["layouts"]; pf[1] += j["layouts"]
             elif j["t"] == "stat" and name.startswith("fmtguard:"):
@@ -182,6 +193,8 @@ def replay_kv(kv, quiet=False):
     v = kv.get("variant", "prod")
     lib = vbuild.build(v)
     env = dict(os.environ, CAT_LIB=lib)
+    if kv["case"].startswith("macroclient "):
+        return macroclient.replay(kv["case"], quiet)
     if kv["case"].startswith("longmove "):
         r = subprocess.run([LONGMOVE, "replay"] + kv["case"].split()[1:], capture_output=True, text=True, errors="replace", env=dict(env, C07_PROP=kv["property"]))
     elif kv["case"].startswith("fmtguard "):
